@@ -9,12 +9,12 @@ PROP = {
     "subchecks": [
         # (a) next-instant function through probe subclasses vs. an independent brute-force reference
         {"target": "c20_alarm_rc", "sub": "next_instant", "env": {"ASAN_OPTIONS": _ASAN},
-         "quick": {"cases": 50000, "max_size": 100, "workers": 8, "case_alarm": 20},
-         "thorough": {"cases": 900000, "max_size": 100, "workers": 8, "case_alarm": 20}},
+         "quick": {"cases": 20000, "max_size": 100, "workers": 8, "case_alarm": 60},
+         "thorough": {"cases": 900000, "max_size": 100, "workers": 8, "case_alarm": 60}},
         # (b) alarm life-cycle under a virtual wall clock (H2) and a virtual monotonic clock (H1)
         {"target": "c20_alarm_rc", "sub": "lifecycle", "env": {"ASAN_OPTIONS": _ASAN},
-         "quick": {"cases": 20000, "max_size": 100, "workers": 8, "case_alarm": 20},
-         "thorough": {"cases": 350000, "max_size": 100, "workers": 8, "case_alarm": 20}},
+         "quick": {"cases": 8000, "max_size": 100, "workers": 8, "case_alarm": 60},
+         "thorough": {"cases": 350000, "max_size": 100, "workers": 8, "case_alarm": 60}},
     ],
     "assumptions": [
         "wall clock restricted to [2 days, 2^32 - 5 years] (UTC and local): wrap-around at the ends of the 32-bit epoch is undocumented and excluded",
